@@ -46,6 +46,17 @@ PURE_NAMES = {'len', 'is_empty', 'is_active', 'is_some', 'is_none', 'is_ok', 'is
               'component_len', 'check_len', 'check_len_against', 'copied', 'cloned', 'from', 'into', 'get_unchecked_mut', 'size_hint', 'unwrap_unchecked', 'unwrap', 'expect', 'as_bytes', 'to_owned'}
 
 
+def _subst_ty(t, mapping):
+    """Replace type parameters by name in a type (facts form)."""
+    if isinstance(t, dict):
+        if t.get('k') == 'param' and t.get('name') in mapping:
+            return mapping[t['name']]
+        return {k: _subst_ty(v, mapping) for k, v in t.items()}
+    if isinstance(t, list):
+        return [_subst_ty(x, mapping) for x in t]
+    return t
+
+
 def tstr(t, depth=0):
     """Compact rendering of a term."""
     if not isinstance(t, tuple) or not t:
@@ -255,6 +266,9 @@ class Engine:
         # {(trait path, method name): Fn}: how calls on the generic `Self` of a provided trait method resolve
         # when that body is analysed for one particular impl
         self.self_methods = self_methods or {}
+        # generic instantiation of callees walked inline: frame -> {type parameter name: type in the root function's terms}
+        self.frame_subst = {}
+        self.cur_frame = 0
 
     # ------------------------------------------------------------------------------------------
     def run(self):
@@ -789,6 +803,7 @@ class Engine:
                     callee = self.operand(st, fn, frame, f['indirect']) if 'indirect' in f else ('unk', 'indirect')
                     self.call_value(st, callee, args, after, t, fn)
                     return
+                self.cur_frame = frame
                 self.call(st, f, args, after, t, fn)
                 return
             self.finish(st, 'other:' + k)
@@ -805,11 +820,18 @@ class Engine:
                 if m is not None:
                     return m
         for cand in (r, f):
+            if cand is f and f.get('trait') and not r:
+                continue        # unresolved trait method call: a provided body is only a default
             if cand and cand.get('local') and cand.get('dp') in self.by_dp:
                 return self.by_dp[cand['dp']]
         return None
 
     def call(self, st, f, args, k, t, fn):
+        sub = self.frame_subst.get(self.cur_frame)
+        if sub:
+            f = dict(f, args=[_subst_ty(a, sub) for a in f.get('args', [])])
+            if f.get('res'):
+                f['res'] = dict(f['res'], args=[_subst_ty(a, sub) for a in f['res'].get('args', [])])
         name = f.get('name') or f['path'].rsplit('::', 1)[-1]
         path = f['path']
         gargs = tuple(ty_key(strip_regions(a)) for a in f['args'] if a.get('k') != 'region')
@@ -821,7 +843,7 @@ class Engine:
                 return m(self, st, f, args, k, e)
         if callee is not None and st.depth < self.max_depth and (callee.kind == 'Closure' or self.inline(callee)) and callee.dp != fn.dp:
             st.ev('enter', name=name, path=path, gargs=gargs, args=tuple(args), ln=t.get('ln'), fn=fn, f=f, callee=callee)
-            return self.call_fn(st, callee, args, k)
+            return self.call_fn(st, callee, args, k, self._inst_map(callee, f))
         self.opaque(st, f, name, path, gargs, args, k, t, fn)
 
     def opaque(self, st, f, name, path, gargs, args, k, t, fn):
@@ -868,9 +890,27 @@ class Engine:
             return v
         return None
 
-    def call_fn(self, st, callee, args, k):
+    def _inst_map(self, callee, f):
+        """{callee type parameter: instantiation} for a resolved call (closures keep their parent's map)."""
+        if callee.kind == 'Closure':
+            return self.frame_subst.get(self.cur_frame)
+        src = f.get('res') if (f.get('res') and f['res'].get('dp') == callee.dp) else (f if f.get('dp') == callee.dp else None)
+        if src is None:
+            return None
+        ga = src.get('args') or []
+        mp = {}
+        for g in callee.d.get('generics') or []:
+            if g.get('kind') == 'type' and isinstance(g.get('idx'), int) and g['idx'] < len(ga) and ga[g['idx']].get('k') != 'region':
+                mp[g['name']] = ga[g['idx']]
+        return mp or None
+
+    def call_fn(self, st, callee, args, k, sub=None):
         self.frames += 1
         frame = self.frames
+        if sub is None and callee.kind == 'Closure':
+            sub = self.frame_subst.get(self.cur_frame)
+        if sub:
+            self.frame_subst[frame] = sub
         body = callee.body
         for i in range(body.argc):
             st.env[(frame, i + 1)] = args[i] if i < len(args) else ('unk', 'arg', i)
